@@ -107,8 +107,19 @@ func heldAt(f *ssa.Function, ins ssa.Instruction) map[string]bool {
 			if uc.lock || uc.id != lc.id || uc.defer_ {
 				continue
 			}
-			// an explicit unlock: must come after ins (ins dominates it), or before the lock
-			if instrDominates(ins, uc.ins) || instrDominates(uc.ins, lc.ins) {
+			// an explicit unlock releases the lock before ins only if it can be executed
+			// after the Lock and before ins without passing the Lock again
+			if uc.ins.Block() == ins.Block() {
+				if instrIndex(uc.ins) > instrIndex(ins) {
+					continue
+				}
+				if lc.ins.Block() == ins.Block() && instrIndex(uc.ins) < instrIndex(lc.ins) {
+					continue
+				}
+				ok = false
+				continue
+			}
+			if !reachesAvoiding(uc.ins.Block(), ins.Block(), lc.ins.Block()) {
 				continue
 			}
 			ok = false
@@ -118,4 +129,31 @@ func heldAt(f *ssa.Function, ins ssa.Instruction) map[string]bool {
 		}
 	}
 	return held
+}
+
+// reachesAvoiding: can control flow go from block from to block to without entering avoid?
+func reachesAvoiding(from, to, avoid *ssa.BasicBlock) bool {
+	seen := map[*ssa.BasicBlock]bool{}
+	var walk func(b *ssa.BasicBlock) bool
+	walk = func(b *ssa.BasicBlock) bool {
+		if b == to {
+			return true
+		}
+		if seen[b] || b == avoid {
+			return false
+		}
+		seen[b] = true
+		for _, s := range b.Succs {
+			if walk(s) {
+				return true
+			}
+		}
+		return false
+	}
+	for _, s := range from.Succs {
+		if walk(s) {
+			return true
+		}
+	}
+	return false
 }
